@@ -241,7 +241,8 @@ def _analyse(script, out):
             if r[2] not in chan_of:
                 return "record for unknown message %d" % r[2], [], {}
             if chan_of[r[2]] != c:
-                return "message %d was sent into channel %d but shows up on channel %d" % (r[2], chan_of[r[2]], c), [], {}
+                return ("message %d was sent into channel %d but is handled by the instance of channel %d "
+                        "(two channels share one Channel instance, or a message changed links)" % (r[2], chan_of[r[2]], c)), [], {}
         t = r[3] if r[0] in (1, 2) else (r[2] if r[0] == 3 else last)
         if t < last:
             return "time ran backwards", [], {}
